@@ -63,3 +63,133 @@ Theorem C12_once : forall s s' ups k st,
   frozen (base_of (commit s')) !! k = None.
 Proof. exact refunded_entry_gone. Qed.
 Print Assumptions C12_once.
+
+(* ================================================================== over whole histories (InvUnbond.v)
+   "refunded exactly once, in full, never earlier, to nobody else" along runs from a genesis, under
+   hypotheses on the inputs only (those of C02_holds_inputs): a well-formed genesis document with at
+   most one validator, operations in Begin / Deliver* / End / Commit brackets with Go-typed
+   transactions, pairwise distinct non-zero hashes on the staking transactions, and the supply bound.
+   [InvUnbond.payouts s ops] lists the (height, stake) pairs the EndBlocks of the run pay:
+   for every EndBlock that answers Ok in a state s', the stakes of the committed unbonding ledger of s'
+   whose refund height is <= the height of s'. *)
+From Rigo Require InvReach InvClosed InvUnbond.
+
+(* the link between the list and the balances: an EndBlock that answers credits the account [a] with
+   the proposer's fees (if it is the proposer) and then exactly the amounts of its payouts owned by [a] *)
+Theorem C12_payout_link : forall s s' ups a,
+  end_block s = (s', Ok ups) ->
+  InvUnbond.payouts1 s SEnd =
+    (fun kp : hash * stake => (b_height (bctx s), kp.2)) <$> InvUnbond.paid_items s /\
+  (forall kp, kp ∈ InvUnbond.paid_items s <->
+     frozen (base_of s) !! kp.1 = Some kp.2 /\ s_refund kp.2 <= b_height (bctx s)) /\
+  acct_of (work s') a = foldl credit (fee_credited s a) (InvUnbond.paid_to a (InvUnbond.payouts1 s SEnd)).
+Proof. exact InvUnbond.payout_link. Qed.
+Print Assumptions C12_payout_link.
+
+Theorem C12_payout_link_balance : forall s s' ups a,
+  end_block s = (s', Ok ups) ->
+  (forall k st, frozen (base_of s) !! k = Some st -> 0 <= s_power st < two63) ->
+  0 <= a_bal (fee_credited s a) < two256 ->
+  bal_of (work s') a =
+    (a_bal (fee_credited s a) +
+     sumZ ((fun p : Z * stake => amountPerPower * s_power p.2) <$>
+           InvUnbond.owned_by a (InvUnbond.payouts1 s SEnd))) mod two256.
+Proof. exact InvUnbond.payout_link_balance. Qed.
+Print Assumptions C12_payout_link_balance.
+
+(* exactly once: no stake hash is paid twice in a run *)
+Theorem C12_payout_at_most_once : forall g ops,
+  InvReach.genesis_ok g -> InvPanic.bracketed InvPanic.Idle 0 ops -> InvReach.hashes_fresh ops ->
+  InvSupply.txs_ok ops ->
+  supply (work (init_chain g)) + InvReach.requested ops < InvSupply.supply_bound ->
+  NoDup ((fun p : Z * stake => s_hash p.2) <$> InvUnbond.payouts (init_chain g) ops).
+Proof. exact InvUnbond.payout_at_most_once. Qed.
+Print Assumptions C12_payout_at_most_once.
+
+(* what is actually used: one genesis validator at most, the brackets, the fresh hashes *)
+Theorem C12_payout_at_most_once_gen : forall g ops,
+  (length (gen_validators g) <= 1)%nat -> InvPanic.bracketed InvPanic.Idle 0 ops -> InvReach.hashes_fresh ops ->
+  NoDup (InvUnbond.payout_hash <$> InvUnbond.payouts (init_chain g) ops).
+Proof. exact InvUnbond.payout_at_most_once_gen. Qed.
+Print Assumptions C12_payout_at_most_once_gen.
+
+(* never earlier, in full: a paid stake has matured; it was released earlier in the run, by a
+   delivery (a signed unstaking transaction of the owner of the stake it names, which is this stake
+   or whose delegatee thereby lost all its own power) or by a BeginBlock (forced release), at a
+   height hr with refund height = hr + the period in force at that point; the full period lies
+   between release and payout; the paid power is the power at release and the amount is
+   amountPerPower x that power *)
+Theorem C12_payout_never_early_and_in_full : forall g ops h st,
+  InvReach.genesis_ok g -> InvPanic.bracketed InvPanic.Idle 0 ops -> InvReach.hashes_fresh ops ->
+  InvSupply.txs_ok ops ->
+  supply (work (init_chain g)) + InvReach.requested ops < InvSupply.supply_bound ->
+  (h, st) ∈ InvUnbond.payouts (init_chain g) ops ->
+  s_refund st <= h /\
+  exists pre o mid post,
+    ops = pre ++ o :: mid ++ SEnd :: post /\
+    let s := srun (init_chain g) pre in
+    let s1 := srun (init_chain g) (pre ++ o :: mid) in
+    InvUnbond.released_by s o st /\
+    s_refund st = InvUnbond.release_height_of s o + g_lazyRewardBlocks (gparams s) /\
+    0 <= g_lazyRewardBlocks (gparams s) /\ InvUnbond.release_height_of s o <= h /\
+    h = b_height (bctx s1) /\ (exists ups, (end_block s1).2 = Ok ups) /\
+    0 <= s_power st < two63 /\ power_to_amount (s_power st) = amountPerPower * s_power st.
+Proof. exact InvUnbond.payout_never_early_and_in_full. Qed.
+Print Assumptions C12_payout_never_early_and_in_full.
+
+(* to nobody else: the EndBlock that pays (h, st) credits it to [s_from st] only, and that owner is
+   the sender of the correctly signed staking transaction of the run that created the stake with this
+   hash -- or the genesis validator, for the genesis stake -- before it was released *)
+Theorem C12_payout_only_to_owner : forall g ops h st,
+  InvReach.genesis_ok g -> InvPanic.bracketed InvPanic.Idle 0 ops -> InvReach.hashes_fresh ops ->
+  InvSupply.txs_ok ops ->
+  supply (work (init_chain g)) + InvReach.requested ops < InvSupply.supply_bound ->
+  (h, st) ∈ InvUnbond.payouts (init_chain g) ops ->
+  exists pre o mid post,
+    ops = pre ++ o :: mid ++ SEnd :: post /\
+    let s0 := srun (init_chain g) pre in
+    let s := srun (init_chain g) (pre ++ o :: mid) in
+    (h, st) ∈ InvUnbond.payouts1 s SEnd /\
+    (exists ups, (end_block s).2 = Ok ups) /\
+    (forall a, acct_of (work (end_block s).1) a =
+               foldl credit (fee_credited s a) (InvUnbond.paid_to a (InvUnbond.payouts1 s SEnd))) /\
+    (forall a, (h, st) ∈ InvUnbond.owned_by a (InvUnbond.payouts1 s SEnd) <-> a = s_from st) /\
+    InvUnbond.released_by s0 o st /\
+    InvUnbond.born g pre st.
+Proof. exact InvUnbond.payout_only_to_owner. Qed.
+Print Assumptions C12_payout_only_to_owner.
+
+(* balance side: for every account, what the unbonding ledger adds to its balance along the run
+   ([InvUnbond.unbond_gain]: at every EndBlock that answers, balance after minus the balance the refund
+   loop starts from) is exactly amountPerPower x power summed over the DISTINCT matured stake hashes
+   it owns, each counted once -- over Z, nothing wraps *)
+Theorem C12_history : forall g ops a,
+  InvReach.genesis_ok g -> InvPanic.bracketed InvPanic.Idle 0 ops -> InvReach.hashes_fresh ops ->
+  InvSupply.txs_ok ops ->
+  supply (work (init_chain g)) + InvReach.requested ops < InvSupply.supply_bound ->
+  let P := InvUnbond.owned_by a (InvUnbond.payouts (init_chain g) ops) in
+  NoDup ((fun p : Z * stake => s_hash p.2) <$> P) /\
+  (forall p, p ∈ P -> s_from p.2 = a /\ s_refund p.2 <= p.1) /\
+  InvUnbond.unbond_gain a (init_chain g) ops = sumZ ((fun p : Z * stake => amountPerPower * s_power p.2) <$> P) /\
+  exists M : gmap hash stake,
+    (forall k st, M !! k = Some st <-> s_hash st = k /\ exists h, (h, st) ∈ P) /\
+    InvUnbond.unbond_gain a (init_chain g) ops =
+      sumZ ((fun kv : hash * stake => amountPerPower * s_power kv.2) <$> map_to_list M).
+Proof. exact InvUnbond.C12_history. Qed.
+Print Assumptions C12_history.
+
+(* why "at most one genesis validator": all genesis stakes carry hash 0; two validators releasing
+   their genesis stakes one after the other are both paid (each once, to its owner) under the same
+   hash, so "no stake hash is paid twice" fails while every other hypothesis holds *)
+Theorem C12_payout_two_validators_refuted : exists g ops,
+  length (gen_validators g) = 2%nat /\ params_ok (gen_params g) /\
+  Forall (fun v : addr * Z => 0 <= v.2 < two63) (gen_validators g) /\
+  Forall (fun h : addr * Z => 0 <= h.2 < two256) (gen_holders g) /\
+  InvPanic.bracketed InvPanic.Idle 0 ops /\ InvReach.hashes_fresh ops /\ InvSupply.txs_ok ops /\
+  supply (work (init_chain g)) + InvReach.requested ops < InvSupply.supply_bound /\
+  all_ok (init_chain g) ops = true /\
+  InvUnbond.payouts (init_chain g) ops =
+    [(3, with_refund 3 (genesis_stake (1%N, 10))); (6, with_refund 6 (genesis_stake (2%N, 10)))] /\
+  ~ NoDup ((fun p : Z * stake => s_hash p.2) <$> InvUnbond.payouts (init_chain g) ops).
+Proof. exact InvUnbond.payout_at_most_once_two_validators_refuted. Qed.
+Print Assumptions C12_payout_two_validators_refuted.
